@@ -75,7 +75,7 @@ def check(repo, rep, tier):
     rc.r_heads(m, rep, 'R1.2')
     rep.rule('R1.5', 'every derivation is reachable and the best is handed out first: unary steps allowed below the full span '
                      'and for one-word sentences; the goal cell is sorted by score before results are emitted')
-    rc.r_guards(m, rep, 'R1.5')
+    rc.r_guards(m, rep, 'R1.5', allow_stricter=False)    # a one-word sentence must get its unary steps: failure only when no derivation exists
     rc.r_nbest(m, rep, 'R1.5')
     rc.r_items_immutable(m, rep, 'R1.2')
     head_uniformity(repo, rep)
